@@ -9,6 +9,7 @@ import time
 from fractions import Fraction
 
 import numpy as np
+import pandas as pd
 
 from qsmon import brokerwl as bw
 from qsmon import core
@@ -326,6 +327,65 @@ def check_wired(case, acc, prop):
     acc.see('%s:wired_parameter_values' % prop, case['buffer'] if long_only else case['leverage'])
 
 
+def check_csv_instants(acc, prop, rng):
+    """
+    The sizer over a real CSV data source at instants strictly between price rows (mid-session, overnight, pre-market):
+    the sizing price is the market's latest price at that instant (point-in-time oracle over the written rows).
+    """
+    import os, shutil, tempfile, datetime as dt_
+    from qsmon import datawl, cal
+    from qstrader.data.daily_bar_csv import CSVDailyBarDataSource
+    from qstrader.data.backtest_data_handler import BacktestDataHandler
+    from qstrader.broker.simulated_broker import SimulatedBroker
+    from qstrader.exchange.simulated_exchange import SimulatedExchange
+    from qstrader.portcon.order_sizer.dollar_weighted import DollarWeightedCashBufferedOrderSizer
+    from qstrader.portcon.order_sizer.long_short import LongShortLeveragedOrderSizer
+    d = tempfile.mkdtemp(prefix='qsmon-sizer-')
+    try:
+        used = set()
+        rows = {s_: datawl.gen_rows(rng, used, n=8, start=dt_.date(2021, 3, 1)) for s_ in ('AA', 'BB')}
+        for s_, rr in rows.items():
+            for r in rr:
+                r['open'] = r['open'] or 31.5
+                r['close'] = r['close'] or 29.25
+                r['adj'] = r['close']
+            datawl.write_csv(os.path.join(d, s_ + '.csv'), rr, list(range(len(rr))))
+        src = CSVDailyBarDataSource(d, None, adjust_prices=False)
+        handler = BacktestDataHandler(None, data_sources=[src])
+        ev = {'EQ:' + s_: datawl.events(rr, False) for s_, rr in rows.items()}
+        t0 = bw.ts('2021-03-01 09:00:00')
+        equity = float(rng.choice([1e5, 2.5e6]))
+        broker = SimulatedBroker(t0, SimulatedExchange(t0), handler, initial_funds=equity)
+        broker.create_portfolio('P')
+        broker.subscribe_funds_to_portfolio('P', equity)
+        if prop == 'C10':
+            buffer = rng.choice([0.0, 0.05, 0.2])
+            sizer = DollarWeightedCashBufferedOrderSizer(broker, 'P', handler, cash_buffer_percentage=buffer)
+            w = {'EQ:AA': 0.6, 'EQ:BB': 0.4}
+        else:
+            sizer = LongShortLeveragedOrderSizer(broker, 'P', handler, gross_leverage=1.0)
+            w = {'EQ:AA': 0.5, 'EQ:BB': -0.5}
+        last = max(e[-1][0] for e in ev.values())
+        first = max(e[0][0] for e in ev.values())
+        for _ in range(6):
+            t = first + (last - first) * rng.random()
+            t = t.replace(microsecond=0)
+            prices = {}
+            for a in w:
+                q, _e = datawl.expected(ev[a], t)
+                prices[a] = float(q)
+            res = sizer(pd.Timestamp(t), dict(w))
+            case = {'prices': prices, 'fee': ['zero'], 'weights': w, 'buffer': buffer if prop == 'C10' else None, 'leverage': 1.0}
+            try:
+                (verify_c10 if prop == 'C10' else verify_c11)(case, equity, res, acc)
+            except Violation as v:
+                raise Violation(prop, 'csv-instant/' + v.key, 'sizing at %s over a CSV source (latest prices at that instant %s): %s'
+                                % (t, prices, v.msg), {})
+            acc.count('%s:csv_instant_calls' % prop)
+    finally:
+        shutil.rmtree(d, ignore_errors=True)
+
+
 def check_csv_gap(acc, prop, rng):
     """A real CSV source whose leading rows have blank prices: sizing inside that gap must be rejected (NaN price)."""
     import os, shutil, tempfile
@@ -441,9 +501,14 @@ def gen_case(rng, long_only):
             w2 = {a: wt() for a in assets}
             if rng.random() < 0.2:
                 w2 = {a: 0.0 for a in assets}
+            if len(assets) > 1 and rng.random() < 0.4:
+                for a in rng.sample(assets, rng.randint(1, len(assets) - 1)):
+                    del w2[a]                      # this call names fewer assets than an earlier one
             if not long_only:
                 w2 = {a: (-x if rng.random() < 0.5 else x) for a, x in w2.items()}
             p2 = {a: (bw.rand_price(rng) if rng.random() < 0.3 else prices[a]) for a in assets}
+            if not long_only:
+                pass
             more.append({'weights': w2, 'prices': p2, 'in_place': rng.random() < 0.5})
         case['more'] = more
     if inv < 0.12:
@@ -500,6 +565,8 @@ def shard(spec, acc, prop):
                 case['wired_invalid'] = rng.choice([-0.01, 1.01, 2.0]) if long_only else rng.choice([0.0, 0, -1.0, -0.001])
         if i % 400 == 11:
             core.guarded(prop, acc, {'kind': 'csv-gap'}, check_csv_gap, acc, prop, rng)
+        if i % 200 == 5:
+            core.guarded(prop, acc, {'kind': 'csv-instants'}, check_csv_instants, acc, prop, rng)
         run_case(case, acc, prop)
         acc.evaluations += 1
         w = case['weights']
